@@ -74,12 +74,13 @@ def one_case(job):
     if lr.get("r") != "ok":
         res["violations"].append(({"story": desc, "history": a.ops[:save_point], "load_result": lr,
                                    "why": "a save taken from a running story does not load"}, {"kind": "load"}))
-    # lockstep continuation
+    # lockstep continuation; after the first turn the restored story is itself saved and a third story
+    # loads that save (a second-generation save), which then replaces it in the lockstep
     crng = random.Random(wseed + 5)
-    cont_ops = []
     diverged = False
     sv2a = a.send(["savejson"]); sv2b = b.send(["savejson"])
     pairs = [(["savejson"], sv2a, sv2b)]
+    sessions = [a, b]
     for turn in range(4):
         if diverged:
             break
@@ -96,10 +97,25 @@ def one_case(job):
             pairs.append((["tags"], ta, tb))
             if la.get("r") != "ok":
                 break
+            if turn == 0 and guard == 1 and rng.random() < 0.5:
+                break   # second generation in the middle of a paragraph
         oa, ob = a.send(["observe_all"]), b.send(["observe_all"])
         pairs.append((["observe_all"], oa, ob))
         sa, sb = a.send(["savejson"]), b.send(["savejson"])
         pairs.append((["savejson"], sa, sb))
+        if turn == 0 and sb.get("r") == "ok":
+            c = play.RtSession()
+            c.send(["new", story["path"]])
+            for op in setup:
+                c.send(op)
+            c.send(["fuel", 20000])
+            lr2 = c.send(["loadtext", json.dumps(sb.get("v"))])
+            pairs.append((["loadtext(second generation)"], {"r": "ok"}, {"r": lr2.get("r")}))
+            b.close()
+            sessions.append(c)
+            b = c
+            if a.send(["can"]).get("v"):
+                continue
         cs = (a.send(["choices"]).get("v") or [])
         csb = (b.send(["choices"]).get("v") or [])
         pairs.append((["choices"], {"r": "ok", "v": cs}, {"r": "ok", "v": csb}))
@@ -109,7 +125,7 @@ def one_case(job):
         pairs.append((["choose", k], a.send(["choose", k]), b.send(["choose", k])))
     a.close(); b.close()
     res["end"] = end
-    res["ops"] = len(a.ops) + len(b.ops)
+    res["ops"] = sum(len(x.ops) for x in sessions)
     res["digest"] = json.dumps([story["path"], a.ops], sort_keys=True)
     save_doc = sv.get("v") or {}
     fl = save_doc.get("flows", {})
@@ -138,7 +154,7 @@ def one_case(job):
                                        "where": (play.json_diff(cx, cy) or [["?"]])[0][0]}))
             break
     # tie: both sessions on the model
-    for sess, tag in ((a, "a"), (b, "b")):
+    for sess, tag in zip(sessions, "abc"):
         rm = play.run_model(sess.ops, scratch, tag=f"c02{tag}-{wseed}")
         d = play.first_diff(sess.ops, sess.results, rm)
         if d and not res["corr"]:
@@ -153,10 +169,11 @@ def one_case(job):
 def run(ctx):
     quick = ctx.tier == "quick"
     pool = stories.corpus_pool(ctx)
-    for prof, n in (("core", 30 if quick else 600), ("lists", 12 if quick else 300), ("random", 8 if quick else 200),
-                    ("flows", 8 if quick else 200), ("functions", 8 if quick else 200), ("externals", 6 if quick else 100)):
+    for prof, n in (("core", 40 if quick else 600), ("lists", 12 if quick else 300), ("random", 8 if quick else 200),
+                    ("flows", 30 if quick else 300), ("functions", 10 if quick else 200), ("externals", 6 if quick else 100)):
         pool += stories.generated_pool(ctx, prof, n)
-    jobs = [(s, ctx.seed * 9173 + si * 37 + w, ctx.scratch) for si, s in enumerate(pool) for w in range(2 if quick else 6)]
+    jobs = [(s, ctx.seed * 9173 + si * 37 + w, ctx.scratch) for si, s in enumerate(pool)
+            for w in range((1 if s["origin"].startswith("corpus") else 3) if quick else 6)]
     ctx.programs = len(pool)
     with ProcessPoolExecutor(max_workers=14) as ex:
         for res in ex.map(one_case, jobs, chunksize=2):
